@@ -39,12 +39,31 @@ def dirEntOfJson (j : Json) : Except String DirEnt := do
     pure ⟨⟨← a[0].getNat?, Str.ofString (← a[1].getStr?)⟩, Str.ofString (← a[2].getStr?)⟩
   else throw "dirs: expected [root, rel, tname]"
 
+/-- `"table"`: absent / null (tablefile=None), `"none"`, `["path", [root, rel]]`, `["stream", content]` -/
+def tableArgOfJson (j : Json) : Except String TableArg :=
+  match j.getObjVal? "table" with
+  | .ok Json.null => pure .dflt
+  | .ok (Json.str "none") => pure .none
+  | .ok (Json.arr a) =>
+    if h : a.size = 2 then do
+      let k ← a[0].getStr?
+      if k == "path" then pure (.path (← dirOfJson a[1]))
+      else if k == "stream" then pure (.stream (← a[1].getNat?))
+      else throw s!"table: unknown kind {k}"
+    else throw "table: expected [kind, value]"
+  | .ok _ => throw "table: expected null, \"none\" or [kind, value]"
+  | .error _ => pure .dflt
+
+def tfileOfJson (j : Json) : Except String TFile := do
+  let a ← j.getArr?
+  if h : a.size = 2 then pure ⟨← dirOfJson a[0], ← a[1].getNat?⟩ else throw "tfiles: expected [[root, rel], content]"
+
 def declareOfJson (self : Flav) (j : Json) : Except String Cmd := do
   let name ← jstr j "name"
   let ver ← jstr j "version"
   let dir ← jdirOpt j "dir"
   let stack ← jnatOpt j "stack"
-  let tableNone ← jboolD j "tableNone"
+  let table ← tableArgOfJson j
   let tag ← jstrOpt j "tag"
   let force ← jboolD j "force"
   let noaction ← jboolD j "noaction"
@@ -53,7 +72,7 @@ def declareOfJson (self : Flav) (j : Json) : Except String Cmd := do
         let x ← e.getArr?
         if h : x.size = 2 then pure (Str.ofString (← x[0].getStr?), ← x[1].getNat?) else throw "ext: expected [path, content]"
     | _ => pure []
-  pure (Cmd.declare ⟨self, name, ver, dir, stack, tableNone, tag, force, noaction, ext⟩)
+  pure (Cmd.declare ⟨self, name, ver, dir, stack, table, tag, force, noaction, ext⟩)
 
 def setupOfJson (j : Json) : Except String (Option (Ver × Flav × Nat)) :=
   match j.getObjVal? "setup" with
@@ -105,6 +124,10 @@ def cmdOfJson (j : Json) : Except String WCmd := do
   let user := (← jnatOpt j "user").getD 0
   if op == "clearcache" then
     pure (.clearCache user)
+  else if op == "envrmdir" then
+    pure (.envRmDir (← dirOfJson (← j.getObjVal? "dir")))
+  else if op == "adminbuild" then
+    pure (.adminBuild user (← jstr j "self"))
   else if op == "rmcache" then
     let s ← jnat j "stack"
     let f ← jstr j "flavor"
@@ -126,6 +149,8 @@ def ofDir (d : Dir) : Json := Json.arr #[Json.num d.root, ofStr d.rel]
 def ofTable : Table → Json
   | .default => "default"
   | .none => "none"
+  | .ext d => ofDir d
+  | .interned => "interned"
 def ofDecl (d : Decl) : Json :=
   Json.arr #[Json.num d.stack, ofStr d.name, ofStr d.ver, ofStr d.flav, ofDir d.dir, ofTable d.table]
 def ofTagRec (r : TagRec) : Json :=
@@ -173,7 +198,10 @@ def handle : Handler := fun j => do
   let nst ← jnat j "nst"
   let dirs ← (← jarr j "dirs").mapM dirEntOfJson
   let pinned ← jboolD j "pinned"
-  let mut w := World.init nst dirs
+  let tfiles ← match j.getObjVal? "tfiles" with
+    | .ok (Json.arr a) => a.toList.mapM tfileOfJson
+    | _ => pure []
+  let mut w := World.init nst dirs tfiles
   let mut F := FileDb.empty
   let mut steps : Array Json := #[]
   for cj in (← jarr j "cmds") do
